@@ -495,18 +495,39 @@ func makeGenbankOriginParser(length int) genbankSubparser {
 			p := state.Buffer()
 			if validateOrigin(p, length, state.Position()) == nil {
 				state.Advance()
-				gb.Origin = &Origin{p, false}
-				return nil
+			} else {
+				parser := slowGenBankOriginParser(length)
+				if err := parser(state, result); err != nil {
+					return err
+				}
+				p = result.Token
 			}
 
-			parser := slowGenBankOriginParser(length)
-			if err := parser(state, result); err != nil {
-				return err
+			if moreOriginLines(state) {
+				state.Clear()
+				what := fmt.Sprintf("the ORIGIN block holds more than the %d residues the LOCUS line declares", length)
+				return pars.NewError(what, state.Position())
 			}
-			p = result.Token
 
 			gb.Origin = &Origin{p, false}
 			return nil
 		}
 	}
+}
+
+// moreOriginLines tests if the next line is yet another sequence line
+// (an index followed by residues) without consuming it.
+func moreOriginLines(state *pars.State) bool {
+	state.Push()
+	defer state.Pop()
+	result := pars.Result{}
+	if err := pars.Line(state, &result); err != nil {
+		return false
+	}
+	fields := bytes.Fields(result.Token)
+	if len(fields) < 2 {
+		return false
+	}
+	_, err := strconv.Atoi(string(fields[0]))
+	return err == nil
 }
